@@ -34,6 +34,7 @@ type HdrPair struct {
 
 type c11Case struct {
 	Carrier  string // http | httpmux
+	Renderer bool   `json:",omitempty"` // the server is configured with a custom ErrorRenderer (errors in band: always 200); it is application code too
 	Base     string `json:",omitempty"` // base path the server is configured with ("" = "/"): only paths under it are registered
 	Method   string
 	Path     string
@@ -59,11 +60,12 @@ type c11Case struct {
 var c11Paths = map[string]string{mUnary: kUnary, mClientStream: kClientStream, mServerStream: kServerStream, mBidi: kBidi}
 
 type c11Run struct {
-	mu      sync.Mutex
-	entered int // desc-level handler invocations
-	appRuns int // application code reached (request decoded)
-	gotReq  *pb.Message
-	recvErr string
+	mu       sync.Mutex
+	entered  int // desc-level handler invocations
+	appRuns  int // application code reached (request decoded)
+	gotReq   *pb.Message
+	recvErr  string
+	rendered int // custom error renderer invocations
 }
 
 func (c *c11Case) service(r *c11Run) *Service {
@@ -165,19 +167,29 @@ func (c *c11Case) cutBody() (body []byte, complete int, inside bool) {
 }
 
 type c11Reply struct {
-	Status  int
-	Header  http.Header
-	Body    []byte
-	Panic   string
-	Entered int
-	AppRuns int
-	RecvErr string
-	Req     *pb.Message
+	Status   int
+	Header   http.Header
+	Body     []byte
+	Panic    string
+	Entered  int
+	AppRuns  int
+	RecvErr  string
+	Rendered int
+	Req      *pb.Message
 }
 
 func (c *c11Case) exec(ctValues []string, body []byte) *c11Reply {
 	r := &c11Run{}
-	car := newHTTPHandlerBase(c.Carrier, c.Base, newServiceDesc(), c.service(r))
+	var hopts []httpgrpc.HandlerOption
+	if c.Renderer {
+		hopts = append(hopts, httpgrpc.ErrorRenderer(func(_ context.Context, st *status.Status, w http.ResponseWriter) {
+			r.mu.Lock()
+			r.rendered++
+			r.mu.Unlock()
+			w.WriteHeader(200)
+		}))
+	}
+	car := newHTTPHandlerBase(c.Carrier, c.Base, newServiceDesc(), c.service(r), hopts...)
 	req := httptest.NewRequest(c.Method, "http://verif.test"+c.Path, bytes.NewReader(body))
 	req.Header.Del("Content-Type")
 	for _, v := range ctValues {
@@ -200,7 +212,7 @@ func (c *c11Case) exec(ctValues []string, body []byte) *c11Reply {
 	rep.Status, rep.Header = res.StatusCode, res.Header
 	rep.Body, _ = io.ReadAll(res.Body)
 	r.mu.Lock()
-	rep.Entered, rep.AppRuns, rep.Req, rep.RecvErr = r.entered, r.appRuns, r.gotReq, r.recvErr
+	rep.Entered, rep.AppRuns, rep.Req, rep.RecvErr, rep.Rendered = r.entered, r.appRuns, r.gotReq, r.recvErr, r.rendered
 	r.mu.Unlock()
 	return rep
 }
@@ -216,16 +228,25 @@ func c11Rel(base, p string) string {
 	return ""
 }
 
-func newHTTPHandlerBase(carrier, base string, desc *grpc.ServiceDesc, svc interface{}) http.Handler {
+func newHTTPHandlerBase(carrier, base string, desc *grpc.ServiceDesc, svc interface{}, hopts ...httpgrpc.HandlerOption) http.Handler {
 	if base == "" {
-		return newHTTPHandlerOnly(carrier, desc, svc)
+		base = "/"
 	}
 	if carrier == cHTTPMux {
 		mux := http.NewServeMux()
-		httpgrpc.HandleServices(mux.HandleFunc, base, newHandlerMap(desc, svc), nil, nil)
+		httpgrpc.HandleServices(mux.HandleFunc, base, newHandlerMap(desc, svc), nil, nil, hopts...)
 		return mux
 	}
-	s := httpgrpc.NewServer(httpgrpc.WithBasePath(base))
+	if carrier == cHTTPPer {
+		mux := http.NewServeMux()
+		perMethodMux(mux, base, desc, svc, nil, nil, hopts...)
+		return mux
+	}
+	sopts := []httpgrpc.ServerOption{httpgrpc.WithBasePath(base)}
+	for _, ho := range hopts {
+		sopts = append(sopts, ho)
+	}
+	s := httpgrpc.NewServer(sopts...)
 	s.RegisterService(desc, svc)
 	return s
 }
@@ -234,6 +255,11 @@ func newHTTPHandlerOnly(carrier string, desc *grpc.ServiceDesc, svc interface{})
 	if carrier == cHTTPMux {
 		mux := http.NewServeMux()
 		httpgrpc.HandleServices(mux.HandleFunc, "/", newHandlerMap(desc, svc), nil, nil)
+		return mux
+	}
+	if carrier == cHTTPPer {
+		mux := http.NewServeMux()
+		perMethodMux(mux, "/", desc, svc, nil, nil)
 		return mux
 	}
 	s := httpgrpc.NewServer()
@@ -295,7 +321,13 @@ func propC11(c c11Case) *Outcome {
 		return o.failf("handler invoked %d times for one request", rep.Entered)
 	}
 	shouldRun := registered && methodOK && ctOK && hdrOK
+	if c.Renderer {
+		o.class("custom-error-renderer")
+	}
 	if !shouldRun {
+		if rep.Rendered != 0 {
+			return o.failf("%s %s (content-type %q, headers ok=%v): the request must be refused by the library itself, yet the application's error renderer ran (%d times; HTTP %d)", c.Method, c.Path, c.CT, hdrOK, rep.Rendered, rep.Status)
+		}
 		if rep.Entered != 0 || rep.AppRuns != 0 {
 			return o.failf("%s %s (content-type %q, headers ok=%v): handler invoked although the request must be refused", c.Method, c.Path, c.CT, hdrOK)
 		}
@@ -469,7 +501,7 @@ var c11CTs = []string{"application/x-protobuf", "application/json", "application
 	"application/jsonx", "application", "/", "", "*/*", "application/x-protobuf, application/json", "application/json/x", "json"}
 
 func genC11(t *rapid.T) c11Case {
-	c := c11Case{Carrier: rapid.SampledFrom([]string{cHTTP, cHTTPMux}).Draw(t, "carrier")}
+	c := c11Case{Carrier: rapid.SampledFrom([]string{cHTTP, cHTTPMux, cHTTPPer}).Draw(t, "carrier")}
 	c.Method = "POST"
 	if rapid.IntRange(0, 4).Draw(t, "oddmethod") == 0 {
 		c.Method = rapid.SampledFrom(c11Methods).Draw(t, "method")
@@ -530,6 +562,7 @@ func genC11(t *rapid.T) c11Case {
 			c.Hdrs = append(c.Hdrs, HdrPair{"X-Bin", ""})
 		}
 	}
+	c.Renderer = rapid.IntRange(0, 3).Draw(t, "renderer") == 0
 	c.Msg = genMsg(t, "msg", 300)
 	c.Msg.Anys, c.Msg.Unknown = nil, nil // JSON cannot carry unresolvable Any / unknown fields
 	for k := range c.Msg.Hdr {
@@ -604,7 +637,7 @@ func FuzzServerRequest(f *testing.F) {
 		if !validTok(hk) || strings.EqualFold(hk, "content-type") || strings.EqualFold(hk, "content-length") || strings.EqualFold(hk, "transfer-encoding") || strings.EqualFold(hk, "host") {
 			return
 		}
-		c := c11Case{Carrier: []string{cHTTP, cHTTPMux}[int(m>>7)&1], Method: c11Methods[int(m&0x7f)%len(c11Methods)], Path: paths[int(p)%len(paths)], CT: []string{ct}, Hdrs: []HdrPair{{hk, hv}},
+		c := c11Case{Carrier: []string{cHTTP, cHTTPMux, cHTTPPer, cHTTP}[int(m>>6)&3], Method: c11Methods[int(m&0x7f)%len(c11Methods)], Path: paths[int(p)%len(paths)], CT: []string{ct}, Hdrs: []HdrPair{{hk, hv}},
 			BodyKind: "raw", Raw: body, RespN: int(p>>4) % 3, ErrCode: []uint32{0, 3, 13}[int(p>>6)%3]}
 		if c11Paths[c.Path] == kClientStream {
 			c.RespN = 1
